@@ -166,7 +166,9 @@ def handle (j : Json) : Except String Json := do
         | .error e => pure (Json.mkObj [("err", Json.str e.name), ("phase", Json.str "finish"), ("pre", molTo pre), ("log", logJ)])
         | .ok fin =>
           pure (Json.mkObj [("ok", Json.mkObj [("pre", molTo pre), ("final", molTo fin), ("log", logJ),
-            ("unused", keysTo unused)])])
+            ("unused", keysTo unused)]),
+            ("hyp", Json.mkObj [("frags_wf", Json.bool (fragsWFb cfg.frags && decide (cfg.frags.map (·.1)).Nodup)),
+                                ("cfg_wf", Json.bool (cfgWFb cfg))])])
   | _ => throw s!"unknown op {op}"
 
 partial def loop (h : IO.FS.Stream) (out : IO.FS.Stream) : IO Unit := do
